@@ -184,8 +184,9 @@ fn check_spec(rep: &Report, scratch: &Scratch, sp: &PSpec) {
     let mt = MTree::from_tree(&tree);
     let base = scratch.p("p");
     for (inputs, recursive, roots) in [(vec![".".to_string()], true, (0..sp.n).collect::<Vec<_>>()), (vec![sp.outp(0)], false, vec![0usize])] {
+        for tn in [true, false] {
         // model
-        let mut m = Model::new(&mt, true, &std_cmd);
+        let mut m = Model::new(&mt, tn, &std_cmd);
         let mut want: Vec<(usize, Result<MFile, String>)> = vec![];
         let mut processed = std::collections::BTreeSet::new();
         let mut stack = roots.clone();
@@ -214,13 +215,13 @@ fn check_spec(rep: &Report, scratch: &Scratch, sp: &PSpec) {
                 num_threads: 1,
                 mode: mode.clone(),
                 verbosity: Verbosity::Quiet,
-                trailing_newline: true,
+                trailing_newline: tn,
             });
             rep.tv(1);
             rep.tr(1);
             rep.add("project_runs", 1);
-            let desc = format!("project {:?} inputs={:?} mode={:?}", sp.to_json().to_string(), inputs, mode);
-            let rj = json!({"engine": "E-proj", "spec": sp.to_json(), "inputs": inputs, "recursive": recursive, "mode": format!("{:?}", mode)});
+            let desc = format!("project {:?} inputs={:?} mode={:?} trailing_newline={tn}", sp.to_json().to_string(), inputs, mode);
+            let rj = json!({"engine": "E-proj", "spec": sp.to_json(), "inputs": inputs, "recursive": recursive, "mode": format!("{:?}", mode), "tn": tn});
             if !r.clean() {
                 rep.violate("abnormal-end", format!("{desc}: {} {:?}", r.verdict.kind(), r.worker_panics), rj);
                 continue;
@@ -265,6 +266,7 @@ fn check_spec(rep: &Report, scratch: &Scratch, sp: &PSpec) {
                     rep.violate("stray-file", format!("{desc}: unexpected file {k}"), rj.clone());
                 }
             }
+        }
         }
     }
 }
